@@ -85,6 +85,16 @@ type LazyArr struct {
 	Mat   map[uint64]*Cell        // materialised cells
 	Elem  types.Type
 	Dirty bool // some cell has been written
+	tail  *lazyTail
+}
+
+// lazyTail: the most recent run of small concrete-length writes at consecutive offsets [off, off+len(vals)) on top of
+// base. Consecutive writes (a serializer appending octet after octet behind a symbolic-length chunk) extend the run
+// instead of nesting one generator per write, so a read at a symbolic position is one flat table, not a deep chain.
+type lazyTail struct {
+	base func(idx *T) Value
+	off  *T
+	vals []Value
 }
 
 type Obj struct {
